@@ -99,4 +99,18 @@ def foldC : KExpr → KOut (Option KVal)
   | .replace a _ _ => foldNone [foldC a]
   | .repeat_ s k => foldNone [foldC s, foldC k]
 
+/-- Subexpressions that `eval_constant` folds to the UNTYPED NULL constant although they are not
+the NULL literal (`1 / 0`, `1 = NULL`, …): the enclosing node then sees an operand of type NULL
+(C16: `sqltype:fold-null-loses-type`), which CASE conditions and the kernels do not accept. -/
+def foldNullSubexprs : KExpr → Bool
+  | .const _ => false
+  | .col _ => false
+  | e@(.arith _ a b) | e@(.cmp _ a b) | e@(.and a b) | e@(.or a b) | e@(.concat a b)
+  | e@(.repeat_ a b) =>
+    (foldC e == .ok (some .null)) || foldNullSubexprs a || foldNullSubexprs b
+  | e@(.neg a) | e@(.not a) | e@(.isnull a) | e@(.cast _ a) | e@(.like a _) | e@(.replace a _ _) =>
+    (foldC e == .ok (some .null)) || foldNullSubexprs a
+  | .ite c t e => foldNullSubexprs c || foldNullSubexprs t || foldNullSubexprs e
+  | .substring a b c => foldNullSubexprs a || foldNullSubexprs b || foldNullSubexprs c
+
 end RlModel
